@@ -78,6 +78,7 @@ struct Srv : public HttpServer
 			s.method = *req.method();
 			s.path = std::string(*req.path(), req.path().length());
 			s.body = std::string((const char*)req.body().data(), req.body().length());
+			if (vf::fnv(id) & 1) { String a = req.query("zz-not-sent"); if (a.length()) s.query["<lookup of a parameter that was not sent returned text>"] = *a; }
 			const Dic<>& q = req.query();
 			foreach2(String& k, const String& v, q) s.query[std::string(*k, k.length())] = std::string(*v, v.length());
 			if (known) for (auto& h : p.reqHeaders) {
